@@ -131,9 +131,37 @@ def run_check(modname, tier, seed, replay=None, nproc=None, max_cases=None):
         for c in chunks:
             results.extend(_run_chunk(c))
     else:
+        # a worker that is killed from outside (e.g. by the OOM killer) loses
+        # its chunk and multiprocessing.Pool would wait for it forever: wait
+        # at most `stall` seconds for the next result, then give up and
+        # report the cases without a result as caps
+        per_case = getattr(mod, "CASE_TIMEOUT", None) or 1800
+        stall = per_case * max(len(c) for c in chunks) + 900
         with ctx.Pool(nproc, initializer=_worker_init, initargs=(modname,),
                       maxtasksperchild=1 if fresh else 200) as pool:
-            for r in pool.imap_unordered(_run_chunk, chunks):
+            it = pool.imap_unordered(_run_chunk, chunks)
+            while True:
+                try:
+                    r = it.next(timeout=stall)
+                except StopIteration:
+                    break
+                except mp.TimeoutError:
+                    done = {json.dumps(x["case"], default=str)
+                            for x in results}
+                    lost = [c for c in cases
+                            if json.dumps(c, default=str) not in done]
+                    print(f"HARNESS: no result for {stall}s; {len(lost)} "
+                          "case(s) without a result (worker killed or "
+                          "stalled) are reported as caps")
+                    for c in lost:
+                        results.append({
+                            "status": "cap", "case": c, "wall": 0.0,
+                            "key": "lost:" + json.dumps(c, default=str),
+                            "outcome": "lost", "nontrivial": False,
+                            "transitions": 0,
+                            "detail": "no result: worker killed or stalled"})
+                    pool.terminate()
+                    break
                 results.extend(r)
     # deterministic order for everything below
     order = {json.dumps(c, default=str): i for i, c in enumerate(cases)}
